@@ -167,12 +167,12 @@ def run(ctx: Ctx):
     depth = ctx.scale(2, 3)
     for k, c in enumerate(rig.exhaustive_cases(depth)):
         cases.append((f"exh{depth}:{k}", c))
-    if ctx.thorough:
-        for k, c in enumerate(rig.exhaustive_cases(5, durs=(0, 2), small=True)):
-            cases.append((f"exh5s:{k}", c))
+    sdepth = ctx.scale(3, 5)
+    for k, c in enumerate(rig.exhaustive_cases(sdepth, durs=ctx.scale((0, 1, 2, 3), (0, 2)), small=True)):
+        cases.append((f"exh{sdepth}s:{k}", c))
     # seeded random
     rng = ctx.rng.fork("health")
-    for k in range(ctx.scale(700, 12000)):
+    for k in range(ctx.scale(1500, 12000)):
         cases.append((f"gen:{k}", rig.gen_case(rng, max_ops=ctx.scale(40, 70))))
 
     impl_all = _run_impl_all([c for _, c in cases], procs=ctx.scale(1, min(12, os.cpu_count() or 1)))
